@@ -2131,7 +2131,7 @@ def rule_py_refill_scope(out):
         out.undecided(rid, "CodedInputStream/buffer reads", rel, "no indexed buffer read found")
 
 RULES = {
-    "C14": [rule_py_trivially_serializable_set, rule_py_fixed_containers_have_no_length],
+    "C14": [rule_py_trivially_serializable_set, rule_py_fixed_containers_have_no_length, rule_py_row_major, rule_py_stream_blocks],
     "C07": [rule_py_mixins_have_no_public_methods],
     "C02": [rule_json_kinds, rule_ndjson_sentinel, rule_union_dispatch, rule_py_optional_identity, rule_py_fraction_padded, rule_py_row_major, rule_py_flags_names_only_when_complete, rule_py_map_shape_by_schema],
     "C03": [rule_py_dtype_constants_agree, rule_link, rule_py_wire_table, rule_py_capacity, rule_py_no_alias, rule_py_stream_blocks, rule_py_optional_identity, rule_ndjson_sentinel, rule_py_fraction_padded, rule_py_varint_constants, rule_py_length_prefix_measures_payload, rule_py_row_major, rule_py_flags_names_only_when_complete, rule_py_trivially_serializable_set],
@@ -2162,6 +2162,26 @@ for _p, _names in {
     "C17": ["rule_py_extents_agree"],
 }.items():
     RULES.setdefault(_p, []).extend(_r9(n) for n in _names)
+
+
+def _r11(name):
+    def f(out):
+        import pyrules11
+        import sys as _sys
+        return getattr(pyrules11, name)(out, _sys.modules[__name__])
+    f.__name__ = name
+    return f
+
+
+for _p, _names in {
+    "C02": ["rule_py_lines_split_at_newline_only", "rule_py_ndjson_writer_header"],
+    "C03": ["rule_py_lines_split_at_newline_only", "rule_py_decodes_are_strict"],
+    "C15": ["rule_py_decodes_are_strict", "rule_py_ndjson_writer_header"],
+    "C04": ["rule_py_ndjson_writer_header"],
+    "C01": ["rule_py_decodes_are_strict"],
+    "C16": ["rule_py_decodes_are_strict"],
+}.items():
+    RULES.setdefault(_p, []).extend(_r11(n) for n in _names)
 
 
 def run(prop, tier, repo, go_tables=None):
